@@ -87,6 +87,8 @@ def generate(ctx):
         yield 'align', {'x': float(x), 't': float(y), 'p': float(p)}
     for _ in range(8 if quick else 40):
         yield 'align', {'x': float(rng.integers(-40, 41)) / 4, 't': float(rng.integers(-40, 41)) / 4, 'p': float(rng.integers(1, 13))}
+    # out-of-domain witness of C16_longitude_coarse_refuted, replayed on the implementation
+    yield 'coarse_lon', {'sx': [0.0, 4.0, 8.0], 'tx': [1.0, 5.0, 9.0], 'period': 12.0}
     # latitude
     sizes = [4, 5, 6, 8, 12, 16, 24] if quick else [4, 5, 6, 7, 8, 10, 12, 16, 20, 24, 32, 48]
     nlat = 14 if quick else 80
@@ -263,6 +265,24 @@ def r_lon(ctx, a):
     ctx.oracle_close('longitude: overlaps of a source cell add up to its width', ov.sum(axis=0), sup - slo, scale=PERIOD)
 
 
+def r_coarse_lon(ctx, a):
+    """Three-cell longitude grids: every cell is narrower than period/2 (the code
+    comment's condition) but two widths add up to more than period/2.  The model
+    (theorem C16_longitude_coarse_refuted) says the overlaps of source cell 0 do not
+    add up to its width; the implementation must agree with the model here.  This
+    is recorded, not alarmed: it is outside the domain of the proved/explored claim."""
+    jnp, hi, vi, sh, sc = J()
+    P = a['period']; sx = np.asarray(a['sx']); tx = np.asarray(a['tx'])
+    ov = np.asarray(hi._longitude_overlap(tx, sx, period=P))
+    mo = ctx.model.call(5, [3, 3, 0, 0, 0, 0, 0, 0], [tx, sx, [P]])
+    ctx.corr('_longitude_overlap (3 x 3 cells, out of domain)', ov, mo, scale=P)
+    lo = np.asarray(hi._periodic_lower_bounds(sx, P)); up = np.asarray(hi._periodic_upper_bounds(sx, P))
+    lost = float((up - lo)[0] - ov.sum(axis=0)[0])
+    ctx.count('coarse_lon: overlap lost for source cell 0 = %.6g (model: %s)' % (lost, str(Fraction(4) - sum(mo[0::3])) if mo else '?'))
+    ctx.notes.append('3x3 longitude cells of width period/3: column sums of _longitude_overlap are %s, cell widths %s '
+                     '(partition identity fails, as proved in C16_longitude_coarse_refuted)' % (ov.sum(axis=0).tolist(), (up - lo).tolist()))
+
+
 def _ov1(lo1, hi1, lo2, hi2):
     return np.maximum(np.minimum(hi1, hi2) - np.maximum(lo1, lo2), 0)
 
@@ -435,4 +455,4 @@ def r_regrid2d(ctx, a):
                  scale=float(np.abs(vals).max()) / max(float(mfrac[both].min()) if both.any() else 1.0, 1e-3))
 
 
-RUNNERS = {'align': r_align, 'lat': r_lat, 'lon': r_lon, 'vert': r_vert, 'hybrid': r_hybrid, 'regrid2d': r_regrid2d}
+RUNNERS = {'coarse_lon': r_coarse_lon, 'align': r_align, 'lat': r_lat, 'lon': r_lon, 'vert': r_vert, 'hybrid': r_hybrid, 'regrid2d': r_regrid2d}
